@@ -47,7 +47,12 @@ def create_build_finer_grid_fun(epsilon: float, maturity: float):
                 positions = np.nonzero(aug_dts > epsilon)[0]
             aug_jump_times = np.cumsum(aug_dts)
 
-            # without the maturity itself
-            return aug_jump_times[:-1], aug_fine_js[..., :-1], aug_coarse_js[..., :-1]
+            # without the maturity itself (nor a point that rounding puts on it)
+            before_maturity = aug_jump_times < maturity
+            return (
+                aug_jump_times[before_maturity],
+                aug_fine_js[..., before_maturity],
+                aug_coarse_js[..., before_maturity],
+            )
 
     return _build_finer_grid_default if epsilon >= maturity else _build_finer_grid
